@@ -146,7 +146,8 @@ def main(argv):
             # f: dict(kind='holds'|'corr', signature, spec/replay payload, detail)
             matched = match_known(f, known)
             if matched is not None:
-                known_hits.append((matched, f))
+                for k in matched:
+                    known_hits.append((k, f))
             else:
                 rp = write_replay(pid, f.get("name", f["kind"]), f)
                 violations.append({"replay": rp, "nofail": f["kind"] != "holds"})
@@ -211,11 +212,17 @@ TRUSTED_BASE = [
 
 
 def match_known(f, known):
-    sig = f.get("signature")
-    for k in known:
-        if k.get("signature") == sig and sig is not None:
-            return k
-    return None
+    """A failure is known only if EVERY signature it carries equals an open entry's signature."""
+    sigs = f.get("signatures") or ([f["signature"]] if f.get("signature") else [])
+    if not sigs:
+        return None
+    found = []
+    for s in sigs:
+        ks = [k for k in known if k.get("signature") == s]
+        if not ks:
+            return None
+        found.append(ks[0])
+    return found
 
 
 _replay_counter = [0]
